@@ -467,6 +467,82 @@ func zzC04_abandoned_then_new() {
 	}
 }
 
+// a notification of a live observation arrives block-wise: the first block carries the Observe option, the layer
+// fetches the remaining blocks with a GET under a token of its own; the assembled notification is delivered once,
+// with the exact body, and when it has been delivered nothing of the transfer is left in either cache - without
+// waiting for any expiry
+func zzC13_blockwise_observe() {
+	symSetNow(time.Unix(0, 1<<41))
+	cc := &zzBWClient{}
+	obsTok := message.Token{0x0B, 0x5E}
+	mkObsReq := func() *pool.Message {
+		m := pool.NewMessage(context.Background())
+		m.SetCode(codes.GET)
+		m.SetToken(obsTok)
+		_ = m.SetPath("/obs")
+		m.SetObserve(0)
+		return m
+	}
+	cli := New(cc, time.Hour, func(error) {}, func(token message.Token) (*pool.Message, bool) {
+		if bytes.Equal(token, obsTok) {
+			return mkObsReq(), true
+		}
+		return nil, false
+	})
+	body := symBytes("body", 40)
+	var got [][]byte
+	var gotTok []byte
+	next := func(w *responsewriter.ResponseWriter[*zzBWClient], r *pool.Message) {
+		got = append(got, append([]byte(nil), zzBody(r)...))
+		gotTok = append([]byte(nil), r.Token()...)
+	}
+	block := func(tok message.Token, num int, observe bool) *pool.Message {
+		m := pool.NewMessage(context.Background())
+		m.SetCode(codes.Content)
+		m.SetToken(tok)
+		lo, hi := num*16, num*16+16
+		more := true
+		if hi >= len(body) {
+			hi, more = len(body), false
+		}
+		if observe {
+			m.SetObserve(7)
+		}
+		_ = m.SetETag([]byte{1, 2})
+		v, _ := EncodeBlockOption(SZX16, int64(num), more)
+		m.SetOptionUint32(message.Block2, v)
+		m.SetContentFormat(message.AppOctets)
+		m.SetBody(bytes.NewReader(body[lo:hi]))
+		return m
+	}
+	msg := block(obsTok, 0, true)
+	for round := 0; round < 4 && len(got) == 0; round++ {
+		w := responsewriter.New(pool.NewMessage(msg.Context()), cc, msg.Options()...)
+		w.Message().SetToken(msg.Token())
+		cli.Handle(w, msg, SZX16, 1152, next)
+		if len(got) > 0 {
+			break
+		}
+		symAssert(w.Message().IsModified(), "the layer asks for the next block")
+		if !w.Message().IsModified() {
+			return
+		}
+		req := w.Message()
+		v, err := req.GetOptionUint32(message.Block2)
+		symAssert(err == nil && req.Code() == codes.GET, "with a GET carrying a Block2 option")
+		if err != nil {
+			return
+		}
+		_, num, _, _ := DecodeBlockOption(v)
+		symAssert(!bytes.Equal(req.Token(), obsTok), "under a token of its own (RFC 7959 section 2.6)")
+		msg = block(req.Token(), int(num), false)
+	}
+	symCover("notification-assembled")
+	symAssert(len(got) == 1 && bytes.Equal(got[0], body), "the block-wise notification is delivered once with exactly the notified body")
+	symAssert(bytes.Equal(gotTok, obsTok), "under the observation's token")
+	symAssert(cli.sendingMessagesCache.Length() == 0 && cli.receivingMessagesCache.Length() == 0, "a completed block-wise notification leaves no reassembly or send buffer behind (without waiting for expiry)")
+}
+
 func zzC04_selftest() {
 	l := zzNewLink(0, 0)
 	body := symBytes("body", 17)
